@@ -25,3 +25,22 @@ fn analysis_sets_match_outcomes() {
     assert_eq!(a2.needs_redo, a1.needs_redo, "a rolled-back session changed needs_redo");
     assert!(a2.needs_undo.len() > a1.needs_undo.len(), "rolled-back session is not in needs_undo");
 }
+
+// A transaction whose Begin record was truncated away by a checkpoint still commits: its Commit record alone must put it
+// into needs_redo (the classification is per record kind, not per pair of records).
+#[test]
+fn commit_without_begin_in_the_log_is_redone() {
+    let dir = tempfile::TempDir::new().unwrap();
+    let db = Database::create(dir.path().join("t.db"), DBConfig::default()).unwrap();
+    db.execute("CREATE TABLE t (id BIGINT, v INT)").unwrap();
+    db.execute("INSERT INTO t VALUES (1, 10)").unwrap();
+    let mut s = db.session().unwrap();
+    db.flush().unwrap(); // checkpoint: truncates the log, the session's Begin record is gone
+    let a0 = db.pager().write().run_analysis().unwrap();
+    s.execute("DELETE FROM t WHERE id = 1").unwrap();
+    s.commit_transaction().unwrap();
+    std::mem::forget(s);
+    let a1 = db.pager().write().run_analysis().unwrap();
+    let committed: Vec<_> = a1.needs_redo.difference(&a0.needs_redo).cloned().collect();
+    assert_eq!(committed.len(), 1, "the committed session (Begin truncated by the checkpoint) is not in needs_redo: {:?}", a1.needs_redo);
+}
